@@ -131,7 +131,7 @@ func CheckOutcome(cmd *Cmd, ex Expect, got Outcome, mt *MTable) (fails []Fail, q
 				}
 			}
 			if !orderOK(got.Items, rng, cmd.Back) {
-				add("C02.order", "Query result not ordered by sort key (backward=%v): %s", cmd.Back, brief(canonSeq(got.Items)))
+				add("C02.order", "Query result not ordered by sort key (backward=%v, sort key type %s): %s", cmd.Back, rng.Type, brief(canonSeq(got.Items)))
 			}
 		}
 		if got.Count != len(got.Items) {
@@ -262,8 +262,10 @@ func StateRules(cmd *Cmd, client int, d Diff, touched map[string]bool) []string 
 	var rules []string
 	other := client != cmd.C || (len(touched) > 0 && !touched[d.Table])
 	switch d.Comp {
-	case "idx-scan", "idx-part", "idx-order":
+	case "idx-scan", "idx-part":
 		rules = append(rules, "C03.view")
+	case "idx-order":
+		rules = append(rules, "C02.order")
 	case "idx-count":
 		rules = append(rules, "C03.count")
 	case "desc":
